@@ -29,7 +29,7 @@ MgValid(c) == \A i, j \in 1..Len(c.items) : i # j => c.items[i].href # c.items[j
 PutCases == {[k |-> "put", srv |-> s, path |-> p, data |-> d, rpath |-> r, etag |-> e, mtime |-> m] :
                s \in Srvs, p \in {"o1", "o2"}, d \in {"d1", "d2", "d3"}, r \in {"o1", "o2", "o3"}, e \in {"e1", "e2", "e3"}, m \in {"m1", "m2"}}
 \* the client reads conformant documents from an independent writer, whatever their layout
-Layouts == {"plain", "split", "extra", "opt404", "prefixes", "ws", "cdata"}
+Layouts == {"plain", "split", "splitrev", "extra", "opt404", "opt404first", "prefixes", "ws", "cdata"}
 DocCases == {[k |-> "doc", srv |-> s, call |-> "objs", layout |-> ly, objs |-> l, cols |-> << >>] : s \in Srvs, ly \in Layouts, l \in {x \in ObjLists : Len(x) = 1 \/ Big}}
             \cup {[k |-> "doc", srv |-> s, call |-> "cols", layout |-> ly, objs |-> << >>, cols |-> l] : s \in Srvs, ly \in Layouts, l \in {x \in ColLists : Len(x) >= 1}}
             \cup {[k |-> "doc", srv |-> "card", call |-> "sync", layout |-> ly, objs |-> l, cols |-> << >>] : ly \in Layouts, l \in {x \in ObjLists : Len(x) = 2}}
